@@ -554,8 +554,8 @@ func engineScenarios(tier string) []*vkit.Scenario {
 								continue
 							}
 							sh := shape{ws, n, end, sync}
-							if !thorough && !quick[sh] {
-								continue
+							if !quick[sh] && (!thorough || m == ekit.ONESHOT) {
+								continue // one-shot mode: the quick selection only
 							}
 							// executions with the default task pool are 4-5 times slower (it allocates a
 							// 64 Ki-entry channel per engine) and have two more threads: one bound lower
@@ -566,7 +566,10 @@ func engineScenarios(tier string) []*vkit.Scenario {
 									p = 2
 								}
 							}
-							if thorough {
+							// a WebSocket Close from a free-running user thread (not waiting for OnMessage)
+							// is the widest shape (0.8 M executions at P=3): it keeps the quick bound
+							wide := ws && end == "uclose" && sync != "after-start"
+							if thorough && !wide {
 								p++
 							}
 							add(ecfg{mode: m, exec: e, ws: ws, n: n, end: end, sync: sync, p: p})
